@@ -35,6 +35,17 @@ pub struct TypeSpec {
     /// registered through `bp.prebuilt` instead of a constructor (singletons only)
     #[serde(default)]
     pub prebuilt: bool,
+    /// C19(b): the lifecycle written in the attribute when it differs from `life`; the blueprint
+    /// registration then overrides it with `.lifecycle(<life>)`
+    #[serde(default)]
+    pub attr_life: Option<Life>,
+    /// C19(b): the cloning flag written in the attribute ("clone_if_necessary" | "never_clone" | "")
+    /// when the blueprint registration overrides it with the effective policy
+    #[serde(default)]
+    pub attr_clone: Option<String>,
+    /// C19(b): `allow(unused)` in the attribute (only meaningful for constructors nobody needs)
+    #[serde(default)]
+    pub allow_unused: bool,
 }
 
 #[derive(Clone, Debug, PartialEq, Serialize, Deserialize)]
@@ -56,6 +67,10 @@ pub struct RouteSpec {
     /// struct fields requested through `PathParams<...>` (C08 R14); empty = no PathParams input
     #[serde(default)]
     pub path_param_fields: Vec<String>,
+    /// registered through a bulk import (`bp.routes(from![module])`) together with the neighbouring
+    /// bulk routes of the same blueprint, instead of `bp.route(ID)`
+    #[serde(default)]
+    pub bulk: bool,
 }
 
 #[derive(Clone, Debug, PartialEq, Serialize, Deserialize)]
@@ -66,7 +81,19 @@ pub struct CompSpec {
     pub is_async: bool,
     /// handlers only
     pub route: Option<RouteSpec>,
+    /// framework-provided inputs taken by reference (indices into `FRAMEWORK_INPUTS`)
+    #[serde(default)]
+    pub fw: Vec<u8>,
 }
+
+/// Values the framework itself injects into any request-time component.
+pub const FRAMEWORK_INPUTS: &[&str] = &[
+    "&pavex::request::RequestHead",
+    "&pavex::request::path::RawPathParams<'_, '_>",
+    "&pavex::request::path::MatchedPathPattern",
+    "&pavex::connection::ConnectionInfo",
+    "&pavex::request::body::RawIncomingBody",
+];
 
 #[derive(Clone, Debug, PartialEq, Serialize, Deserialize)]
 pub enum Reg {
@@ -103,5 +130,35 @@ impl AppSpec {
         let mut d = 0;
         self.walk_regs(&mut |_, depth| d = d.max(depth));
         d
+    }
+}
+
+impl AppSpec {
+    /// Groups of consecutive bulk-imported routes: handler index -> group number. A group is a
+    /// maximal run of neighbouring `Reg::Comp` registrations of bulk handlers in one blueprint.
+    pub fn bulk_groups(&self) -> std::collections::BTreeMap<usize, usize> {
+        fn rec(spec: &AppSpec, regs: &[Reg], next: &mut usize, out: &mut std::collections::BTreeMap<usize, usize>) {
+            let mut open: Option<usize> = None;
+            for r in regs {
+                match r {
+                    Reg::Comp { idx } if spec.comps[*idx].kind == CompKind::Handler && spec.comps[*idx].route.as_ref().is_some_and(|r| r.bulk) && !out.contains_key(idx) => {
+                        let g = *open.get_or_insert_with(|| {
+                            *next += 1;
+                            *next - 1
+                        });
+                        out.insert(*idx, g);
+                    }
+                    Reg::Nest { bp, .. } => {
+                        open = None;
+                        rec(spec, bp, next, out);
+                    }
+                    _ => open = None,
+                }
+            }
+        }
+        let mut out = Default::default();
+        let mut next = 0;
+        rec(self, &self.bp, &mut next, &mut out);
+        out
     }
 }
